@@ -105,7 +105,7 @@ theorem downList_top (lo hi : Nat) (h : lo ≤ hi) : ∃ l, downList lo hi = hi 
   have : lo + c + 1 - lo = c + 1 := by omega
   exact ⟨_, by simp [downList, this, List.range_succ]; rfl⟩
 
-theorem mem_downList {lo hi x : Nat} (h : x ∈ downList lo hi) : lo ≤ x ∧ x ≤ hi := by
+private theorem mem_downList {lo hi x : Nat} (h : x ∈ downList lo hi) : lo ≤ x ∧ x ≤ hi := by
   simp only [downList, List.mem_map, List.mem_reverse, List.mem_range] at h
   obtain ⟨a, ha, rfl⟩ := h
   omega
@@ -932,7 +932,7 @@ theorem dispatch_printDef_pair (tab : Nat) (pb : PB) (state : List BState) (refs
 
 def PBle (pb pb' : PB) : Prop := ∀ st refs p bs out, pb st refs p bs = some out → pb' st refs p bs = some out
 
-theorem listItems_mono {pb pb' : PB} (h : PBle pb pb') (tab st2) (items : List Str) (refs lst out) :
+private theorem listItems_mono {pb pb' : PB} (h : PBle pb pb') (tab st2) (items : List Str) (refs lst out) :
     listItems tab pb st2 refs lst items = some out → listItems tab pb' st2 refs lst items = some out := by
   induction items generalizing refs lst with
   | nil => simp [listItems]
@@ -941,7 +941,7 @@ theorem listItems_mono {pb pb' : PB} (h : PBle pb pb') (tab st2) (items : List S
     unfold listItems at H ⊢
     grind [PBle]
 
-theorem listP_mono {pb pb' : PB} (h : PBle pb pb') (tab st refs p b rest tag out) :
+private theorem listP_mono {pb pb' : PB} (h : PBle pb pb') (tab st refs p b rest tag out) :
     listP tab pb st refs p b rest tag = some out → listP tab pb' st refs p b rest tag = some out := by
   unfold listP
   intro H
@@ -957,19 +957,19 @@ theorem listP_mono {pb pb' : PB} (h : PBle pb pb') (tab st refs p b rest tag out
   · grind
 
 
-theorem hashP_mono {pb pb' : PB} (h : PBle pb pb') (tab st refs p b rest m out) :
+private theorem hashP_mono {pb pb' : PB} (h : PBle pb pb') (tab st refs p b rest m out) :
     hashP tab pb st refs p b rest m = some out → hashP tab pb' st refs p b rest m = some out := by
   unfold hashP
   intro H
   grind [PBle]
 
-theorem hrP_mono {pb pb' : PB} (h : PBle pb pb') (st refs p b rest m out) :
+private theorem hrP_mono {pb pb' : PB} (h : PBle pb pb') (st refs p b rest m out) :
     hrP pb st refs p b rest m = some out → hrP pb' st refs p b rest m = some out := by
   unfold hrP
   intro H
   grind [PBle]
 
-theorem quoteP_mono {pb pb' : PB} (h : PBle pb pb') (st refs p b rest q out) :
+private theorem quoteP_mono {pb pb' : PB} (h : PBle pb pb') (st refs p b rest q out) :
     quoteP pb st refs p b rest q = some out → quoteP pb' st refs p b rest q = some out := by
   unfold quoteP parseChunk
   intro H
@@ -979,7 +979,7 @@ theorem quoteP_mono {pb pb' : PB} (h : PBle pb pb') (st refs p b rest q out) :
     rw [h _ _ _ _ _ h1]; rw [h1] at H
     grind [PBle]
 
-theorem indentP_mono {pb pb' : PB} (h : PBle pb pb') (tab st refs p b rest out) :
+private theorem indentP_mono {pb pb' : PB} (h : PBle pb pb') (tab st refs p b rest out) :
     indentP tab pb st refs p b rest = some out → indentP tab pb' st refs p b rest = some out := by
   unfold indentP parseChunk
   intro H
@@ -992,7 +992,7 @@ theorem ite_some_mono {α} {C : Prop} [Decidable C] {A B A' B' : Option α} {out
   · rw [if_pos c, if_pos c]; exact hA c
   · rw [if_neg c, if_neg c]; exact hB c
 
-theorem dispatch_mono {pb pb' : PB} (h : PBle pb pb') (tab st refs p b rest out) :
+private theorem dispatch_mono {pb pb' : PB} (h : PBle pb pb') (tab st refs p b rest out) :
     dispatch tab pb st refs p b rest = some out → dispatch tab pb' st refs p b rest = some out := by
   unfold dispatch
   intro H
